@@ -154,6 +154,7 @@ theorem walkBlockOf_noimp {body : Run} (h : NoImp body) : NoImp (walkBlockOf bod
 theorem renderBlockOf_noimp {body : Run} (h : NoImp body) (ctx : Scope) (st : St) (hown : Own ctx st) (hs : Shaped ctx) :
     (renderBlockOf body ctx st).1.st.impossible = st.impossible := by
   unfold renderBlockOf
+  simp only [restoreNode_impossible]
   exact walkBlockOf_noimp h ctx { st with out := [] } (hown.ext (Ext.of_heap_eq (W := fun _ => False) rfl rfl)) hs
 
 theorem forLoop_noimp {body : Run} (h : NoImp body) (hg : GoodRun body) (var : Bytes) (last : Int) :
